@@ -1,7 +1,17 @@
 from datetime import datetime
+from fractions import Fraction
 from typing import List, Dict, Any, Iterable, Optional
 
 from pjplan.task import Task, _ImmutableTaskList
+
+
+def _exact(value) -> Fraction:
+    """Exact value of a number of units: a float stands for its shortest decimal notation (0.1 is 1/10)"""
+    if value is None:
+        return Fraction(0)
+    if isinstance(value, float):
+        return Fraction(repr(value))
+    return Fraction(value)
 
 
 def _find_clusters(tasks: List['Task']) -> List[List['Task']]:
@@ -67,10 +77,8 @@ class CriticalPathCalculator:
             p_ids.append(p.id)
             self.__insert_task(p)
 
-        estimate = task.estimate if task.estimate is not None else 0
-        spent = task.spent if task.spent is not None else 0
-
-        self.__add_work(task.id, max(estimate - spent, 0), p_ids)
+        # Exact arithmetic: float rounding (0.1 + 0.2 != 0.3) must not hide a zero slack in calc()
+        self.__add_work(task.id, max(_exact(task.estimate) - _exact(task.spent), 0), p_ids)
 
     def __new_node(self) -> _PNode:
         res = _PNode()
